@@ -388,7 +388,7 @@ fn main() {
             cases.push((json!({"family": "upload-answers", "answers": answers}), vec![f], answers));
         }
     }
-    for answers in [vec![0u16, 200], vec![0, 0, 0, 0, 0, 200], vec![500, 0, 200], vec![1200], vec![1200, 200], vec![500, 1200, 200], vec![1200, 1200]] {
+    for answers in [vec![0u16, 200], vec![0, 0, 0, 0, 0, 200], vec![500, 0, 200], vec![1200], vec![1200, 200], vec![500, 1200, 200], vec![1200, 1200], vec![202], vec![204], vec![201, 200], vec![500, 202], vec![202, 202, 202]] {
         let f: Vec<Ev> = vec![ev("x".repeat(40 * 1024), "retry"), ev("y".repeat(40 * 1024), "retry")];
         cases.push((json!({"family": "upload-answers", "answers": answers}), vec![f], answers));
     }
@@ -494,7 +494,7 @@ fn main() {
     res.cov("measured_envelope_bytes", envelope as u64);
     res.cov("measured_bytes_per_empty_event", per_event as u64);
     res.cov("exhaustive", hung == 0);
-    res.cov("rule", format!("event files x {{1,2}} files x event counts x 10 content classes (markup, CDATA terminators, nested CDATA, 2/3/4-byte UTF-8, attribute-injection text, ...) in the message, and the same classes in the version / time stamp / level fields of a stored event; batches of 1-3 events whose rendered size is exactly limit-2..limit+1 (envelope measured: {envelope} + {per_event} per event), with and without small events behind; one event above the limit first/middle/last, also made of 2-/3-/4-byte characters at every alignment; files without events; every upload answer pattern of length <= {maxp} over {{200, 500}} plus connection resets and accepting answers (200) whose body is cut short; each run = one cycle of the real EventReader on a paused clock; bodies parsed with xml-rs (document, then each CDATA payload)"));
+    res.cov("rule", format!("event files x {{1,2}} files x event counts x 10 content classes (markup, CDATA terminators, nested CDATA, 2/3/4-byte UTF-8, attribute-injection text, ...) in the message, and the same classes in the version / time stamp / level fields of a stored event; batches of 1-3 events whose rendered size is exactly limit-2..limit+1 (envelope measured: {envelope} + {per_event} per event), with and without small events behind; one event above the limit first/middle/last, also made of 2-/3-/4-byte characters at every alignment; files without events; every upload answer pattern of length <= {maxp} over {{200, 500}} plus connection resets and accepting answers (200) whose body is cut short, and other accepting statuses (201, 202, 204); each run = one cycle of the real EventReader on a paused clock; bodies parsed with xml-rs (document, then each CDATA payload)"));
     res.assume("event text is free of control characters (as the statement restricts)");
     res.assume("goal state / shared config / instance documents served by the mock are the samples embedded in the repository's own unit tests");
     std::process::exit(res.finish());
